@@ -1,7 +1,7 @@
 (* Model of the Map decoder of xml.go: cast, escapeChars, xmlToMapParser as a
    consumer of the token list encoding/xml's Decoder.Token returns.
    Executable transcriptions; NO proofs in this file. *)
-From Mxj Require Export Model.Opts.
+From Mxj Require Export Model.Opts Base.XmlTok.
 
 (* ---------------- escapechars.go ---------------- *)
 Definition replace1 (pat : ascii) (rep : str) (x : str) : str :=
@@ -51,18 +51,7 @@ Definition cast (o : opts) (x : str) (r : bool) (t : str) : value :=
     end.
 End Cast.
 
-(* ---------------- tokens ---------------- *)
-Record xname := { xspace : str; xlocal : str }.
-Record xattr := { aname : xname; avalue : str }.
-Inductive tok :=
-| TStart (n : xname) (a : list xattr)
-| TEnd (n : xname)
-| TChar (x : str)
-| TComment (x : str)
-| TProcInst (target inst : str)
-| TDirective (x : str).
-(* how the token stream ends: io.EOF or a syntax error *)
-Inductive term := TermEOF | TermErr.
+(* ---------------- tokens: Base/XmlTok.v (xname, xattr, tok, term) ---------------- *)
 
 (* ---------------- xmlToMapParser ---------------- *)
 Section Dec.
